@@ -212,3 +212,9 @@ Proof.
   apply map_ext_in. intros i Hi. apply in_seq in Hi. assert (Hi' : i < blen l) by lia.
   unfold brow. destruct (b_nulls l) as [ln|]; bits_at Hi'; unfold bit, k3_not; bool_cases.
 Qed.
+
+(* non-vacuity: null AND false = false, null AND true = null, with garbage value bits under the nulls *)
+Example ex_and_kleene :
+  bcanon (and_kleene (mkb [true; true; false] (Some [false; false; true])) (mkb [false; true; true] None))
+  = inl [Some false; None; Some false].
+Proof. vm_compute. reflexivity. Qed.
